@@ -67,6 +67,12 @@ CHECKS['C03'] = dict(
    note='Trusted: Coq kernel; hand model of Identifier/Block/Property/Formatter/Scope tied to the code by byte-exact correspondence on every generated case; harness/gens/sheet.py tree() as stand-in for the LALR parser (validated by the same comparison); harness/readcss.py; reference semantics Spec/Sem.v.' + ' PARTIAL: the end-to-end substitution theorem is not proved; uses in selectors / media conditions / mixin arguments are covered by C18/C05 correspondence.',
    design='3/C03')
 
+CHECKS['C10'] = dict(
+   technique='metamorphic correspondence on the real compiler (plain-CSS detector, compile(compile(s)) == compile(s), cross-option equality) over generated programs and the project corpus + Coq normal-form theorems (no rule / no @media inside a rule, unbound variable = error)',
+   text='Decided on the real compiler: for generated programs of all fragments under random option vectors and for every file of test/less, the output contains no LESS construct, compiling it again returns it unchanged (when the front end accepts it), and compiling it with other options equals compiling the source with them. Coq obligations: C10_flat_output / C10_no_media_in_rule (the evaluator returns ordinary rules followed by @media blocks holding ordinary rules only, for every tree of rules and @media blocks), C10_no_unresolved_variable.',
+   note='PARTIAL: the fixed-point statements have no theorem (the text->tree front end is modelled only at token level); known findings F24a/F24b (two corpus files, escapes / progid filter) and F5b (query starting with a feature prints )and( : pinned by a fixture). Trusted: the plain-CSS detector in harness/props/c10.py.',
+   design='3/C10')
+
 NOT_YET = {}
 
 
